@@ -287,7 +287,8 @@ def s5b(led, rid, ctx):
                               ("WatchListCP", "get_backtrack_affected_propagators", "backtrack_watcher"),
                               ("Watchers", "watch_all", "forward_watcher"),
                               ("Watchers", "watch_all_backtrack", "backtrack_watcher")):
-        f = lib.method(owner, name)
+        from .shared import method_view as _mv
+        f = _mv(lib, owner, name)         # a per-event selector method of the watcher is spliced in
         for bb in f.cfg.edges:
             for fa in edge_facts(f, bb):
                 if fa.kind != "variant" or fa.neg or fa.val not in EVENT_FIELD:
@@ -299,11 +300,14 @@ def s5b(led, rid, ctx):
                 # the arm's first block selects the list
                 fields = None
                 blk = f.blocks[fa.edge.dst]
+                Rf = resolver(f)
                 for s in blk["stmts"]:
                     if s["s"] == "assign" and s["rv"]["r"] == "ref":
                         nm = [e.get("name") for e in s["rv"]["place"]["proj"] if "field" in e]
                         if nm and nm[-1].endswith("_watchers"):
-                            fields = nm
+                            # the whole field path, through the receiver a selector method was called with
+                            full = [x for x in Rf.rvalue(s["rv"]).fields() if x and x != nm[-1]]
+                            fields = [x for x in full if x not in nm] + nm
                 rows += 1
                 ok = fields is not None and fields[-1] == EVENT_FIELD[fa.val] and side in fields
                 led.check(ok, rid, "%s:%s" % (name, fa.val), "%s:%d" % (f.file, blk["line"]),
